@@ -137,10 +137,9 @@ where
                 &value,
                 revision,
             );
-            old_memo
-                .header
-                .diff_outputs(zalsa, database_key_index, &completed_query);
         }
+        let stale_outputs =
+            old_memo.map(|old_memo| old_memo.header.stale_outputs(&completed_query));
 
         let memo = Memo::new(Some(value), revision, completed_query.revisions);
 
@@ -150,6 +149,9 @@ where
             key
         );
         self.insert_memo(zalsa, key, memo, memo_ingredient_index);
+        if let Some(stale_outputs) = stale_outputs {
+            super::diff_outputs::discard_stale_outputs(zalsa, database_key_index, stale_outputs);
+        }
 
         // Record that the current query *specified* a value for this cell.
         zalsa_local.add_output(database_key_index);
